@@ -63,6 +63,25 @@
   (ev/close srv)
   (each d fds (c16/close-fd d)))
 
+# --- net/connect, synchronous part: connect() answered from a plan (-1 = EINTR, 0 = the real call, e = errno e);
+# a live listener is the target so the real call succeeds / is in progress
+(defn planned-connect [plan]
+  (def srv (net/listen "127.0.0.1" "0"))
+  (def port (get (net/localname srv) 1))
+  (c16/connect-plan plan)
+  (def r (protect (net/connect "127.0.0.1" (string port))))
+  (gccollect)
+  (def [calls closes left] (c16/connect-stats))
+  (print "connectcall plan=" (string/join (map string plan) ",") " result=" (if (r 0) "stream" (string/replace-all " " "_" (string (r 1))))
+         " calls=" calls " closes=" closes " unused=" left)
+  (when (r 0) (ev/close (r 1)))
+  (ev/close srv))
+
+(each plan [[0] [-1 0] [-1 -1 -1 0] [111] [-1 101] [-1 -1 113] [13]
+            (tuple ;(array/new-filled (math/rng-int rng 6) -1) 0)
+            (tuple ;(array/new-filled (math/rng-int rng 6) -1) (get [111 101 110 99 98] (math/rng-int rng 5)))]
+  (planned-connect plan))
+
 (each kind ["tcp" "unix"]
   (each k [1 2 (+ 3 (math/rng-int rng 6)) (+ 10 (math/rng-int rng 40))]
     (burst-loop kind k)
